@@ -325,12 +325,16 @@ class Verifier(ExprMixin, StmtMixin, CallMixin, LibMixin, SpecMixin):
                     st.assume(self.spec_bool(c, st, assume=True))
             for r in self.contract.get("requires", []):
                 st.assume(self.spec_bool(r, st, assume=True))
+            for r in self.contract.get("assumed_requires", []):
+                st.assume(self.spec_bool(r, st, assume=True))
+                self.trust("ASSUMED precondition of %s (not checked at call sites): %s" % (qn.split("::")[-1], r))
             self.entry_state = st.snapshot()
             st.old = self.entry_state
             self.canaries.append(("precondition satisfiable", fdef.lineno, solve.feasible(st.pc, 2000, full=True)))
             self.run_ghost(self.contract.get("ghost_init"), st)
             outs = self.exec_block(fdef.body, st)
             n_ret = 0
+            reach = []
             for kind, s2, v in outs:
                 if kind == "raise":
                     allowed = self.contract.get("may_raise", [])
@@ -342,11 +346,16 @@ class Verifier(ExprMixin, StmtMixin, CallMixin, LibMixin, SpecMixin):
                 result = v if kind == "return" else NONE
                 s2.ghost["result"] = result
                 self.run_ghost(self.contract.get("ghost_exit"), s2)
-                for i, e in enumerate(self.contract.get("ensures", [])):
+                # in postconditions a parameter name denotes the object passed in (python rebinding of the
+                # local name inside the body is not visible to the caller); its contents are the current ones
+                for pn, pv in self.entry_params.items():
+                    s2.vars[pn] = (pv, True)
+                for i, e in enumerate(list(self.contract.get("ensures", [])) + list(self.contract.get("ensures_ghost", []))):
                     self.oblige(s2, "post", fdef, self.spec_bool(e, s2), "postcondition #%d: %s" % (i + 1, e))
-                self.canaries.append(("return reachable", fdef.lineno, solve.feasible(s2.pc, 1000, full=True)))
-            if n_ret == 0:
-                self.canaries.append(("some return path", fdef.lineno, False))
+                reach.append(solve.feasible(s2.pc, 1000, full=True))
+            # vacuity guard: some normal exit must be reachable (only meaningful if nothing failed)
+            if all(o.verdict == "unsat" for o in self.obligations):
+                self.canaries.append(("some return path reachable", fdef.lineno, any(reach)))
         except VCError as e:
             res["error"] = "unsupported/checker: %s" % e
         except z3.Z3Exception as e:
